@@ -51,6 +51,7 @@ type Opts struct {
 	ChainRealms    int           `json:"chain_realms"` // additional realms R1..Rn linked in a referral chain behind TEST
 	ChainCycle     bool          `json:"chain_cycle"`  // the last chain realm refers back to R1 instead of holding the service
 	LenientCRealm  bool          `json:"lenient_authenticator_crealm"`
+	FreshRenewKey  bool          `json:"kdc_issues_new_key_on_renewal"`
 }
 
 // DefaultOpts is the baseline configuration.
@@ -182,10 +183,9 @@ func New(o Opts) *World {
 		simkdc.Link(prev, w.Chain[0])
 		prev.Referral[".chain.gokrb5"] = w.Chain[0].Realm
 	}
-	if o.LenientCRealm {
-		for _, k := range w.AllKDCs() {
-			k.LenientAuthCRealm = true
-		}
+	for _, k := range w.AllKDCs() {
+		k.LenientAuthCRealm = o.LenientCRealm
+		k.FreshKeyOnRenew = o.FreshRenewKey
 	}
 	reg := func(addr string, k *simkdc.KDC) {
 		for _, n := range []string{"udp", "tcp"} {
